@@ -505,6 +505,8 @@ package argmapper
 // those of one Func, failed holds the final error of the last executed
 // function (nil if none), planning is set while Redefine plans.
 //@ ghostvar nexec int
+//@ ghostvar sawMissing bool
+//@ ghostvar missAt int
 //@ ghostvar failed any
 //@ ghostvar planning bool
 //@ ghostfield Func.execs int
@@ -526,7 +528,7 @@ package argmapper
 //@   ensures  [once-memoises-every-first-result] imp(f.once && !old(cachedOnce(f)) && result.buildErr == nil, f.onceResult != nil && fresh(f.onceResult) && f.onceResult.out == result.out && f.onceResult.buildErr == nil)
 //@   ensures  [not-once-no-cache] imp(!f.once, f.onceResult == old(f.onceResult))
 //@   ensures  f.once == old(f.once) && f.fn == old(f.fn) && f.input == old(f.input) && f.output == old(f.output)
-//@   assigns  Func.onceResult, Func.execs, Result, structValue, valueVertex, typedArgVertex, []interface{}, []error, []reflect.Value, multierror.Error, rvstore, rvfresh, nexec, failed
+//@   assigns  Func.onceResult, Func.execs, Result, structValue, valueVertex, typedArgVertex, []interface{}, []error, []reflect.Value, multierror.Error, rvstore, rvfresh, nexec, failed, sawMissing, missAt
 //@   modifies f
 //@   before "out := f.fn.Call(in)" assert [nothing-runs-after-a-failure] failed == nil
 //@   before "out := f.fn.Call(in)" assert [redefine-runs-no-user-code] imp(planning, zeroFn(f.fn))
@@ -535,7 +537,11 @@ package argmapper
 //@   after "out := f.fn.Call(in)" set failed = ite(len(out) > 0, errOf(out[len(out)-1]), nil)
 //@   loop 1 invariant f.onceResult == old(f.onceResult) && f.execs == old(f.execs) && nexec == old(nexec) && failed == old(failed) && structVal != nil && f.once == old(f.once) && f.fn == old(f.fn) && f.input == old(f.input) && f.output == old(f.output)
 //@   loop 1 invariant forall(j, int, imp(0 <= j && j < idx1 && !has(argMap, vhash(f.input.values[j])), buildErr != nil))
-//@   loop 1 invariant imp(forall(j, int, imp(0 <= j && j < idx1, has(argMap, vhash(f.input.values[j])))), buildErr == nil)
+//@   loop 1 invariant [error-only-for-a-missing-argument] (buildErr == nil) == !sawMissing
+//@   loop 1 invariant [witness-of-the-missing-argument] imp(sawMissing, 0 <= missAt && missAt < idx1 && !has(argMap, vhash(f.input.values[missAt])))
+//@   before "structVal := f.input.newStructValue()" set sawMissing = false
+//@   before "buildErr = multierror.Append(buildErr, fmt.Errorf(" set sawMissing = true
+//@   before "buildErr = multierror.Append(buildErr, fmt.Errorf(" set missAt = idx1
 //@   loop 2 invariant f.onceResult == old(f.onceResult) && f.execs == old(f.execs) && nexec == old(nexec) && failed == old(failed) && buildErr == nil && f.once == old(f.once) && f.fn == old(f.fn) && f.input == old(f.input) && f.output == old(f.output)
 //@   loop 2 invariant forall(j, int, imp(0 <= j && j < len(f.input.values), has(argMap, vhash(f.input.values[j]))))
 
@@ -609,7 +615,7 @@ package argmapper
 //@   ensures  [failing-converter-error-returned-verbatim] imp(failed != nil, result1 == failed)
 //@   ensures  [error-means-no-arguments] imp(result1 != nil, result0 == nil)
 //@   ensures  planning == old(planning)
-//@   assigns  graph.Graph, Outer, Inner, HashM, VisitM, ItemM, []graph.Vertex, [][]graph.Vertex, []*graph.distQueueItem, *graph.distQueue, graph.distQueueItem, valueVertex.Value, typedArgVertex.Value, typedOutputVertex.Value, valueVertex, typedArgVertex, callState, NamedM, TypedM, ArgMap, map[interface{}]graph.Vertex, []*Value, Value, valueInternal, ErrArgumentUnsatisfied, Result, structValue, Func.onceResult, Func.execs, []interface{}, []error, []reflect.Value, multierror.Error, rvstore, rvfresh, nexec, failed, lastStruct, fin, frozen, cnt, reported, dvisited, kpos, spos
+//@   assigns  graph.Graph, Outer, Inner, HashM, VisitM, ItemM, []graph.Vertex, [][]graph.Vertex, []*graph.distQueueItem, *graph.distQueue, graph.distQueueItem, valueVertex.Value, typedArgVertex.Value, typedOutputVertex.Value, valueVertex, typedArgVertex, callState, NamedM, TypedM, ArgMap, map[interface{}]graph.Vertex, []*Value, Value, valueInternal, ErrArgumentUnsatisfied, Result, structValue, Func.onceResult, Func.execs, []interface{}, []error, []reflect.Value, multierror.Error, rvstore, rvfresh, nexec, failed, sawMissing, missAt, lastStruct, fin, frozen, cnt, reported, dvisited, kpos, spos
 //@   modifies forall(x, *valueVertex, true), forall(x, *typedArgVertex, true), forall(x, *typedOutputVertex, true), forall(x, *Func, true), state, state.NamedValue, state.TypedValue, state.InputSet
 //@   after "for _, v := range paths[i] {" assert [self-dependency-detected-on-the-whole-path] forall(j, int, imp(0 <= j && j < len(paths[i]) && paths[i][j] == target, len(unsatisfied) > 0))
 //@   loop 5 invariant forall(j, int, imp(0 <= j && j < idx5 && paths[i][j] == target, len(unsatisfied) > 0)) && len(unsatisfied) >= 0
@@ -697,7 +703,7 @@ package argmapper
 //@     && forall(m, string, imp(has(vs.namedValues, m), vs.namedValues[m] != nil && vs.namedValues[m].Type != nil && vs.namedValues[m].Name == m && m != ""))
 //@     && forall(t, reflect.Type, imp(has(vs.typedValues, t), vs.typedValues[t] != nil && vs.typedValues[t].Type == t && t != nil && vs.typedValues[t].Name == ""))
 //@ ghost repOK(x any) bool = (typeis(x, *valueVertex) && as(x, *valueVertex) != nil && as(x, *valueVertex).Type != nil) || (typeis(x, *typedArgVertex) && as(x, *typedArgVertex) != nil && as(x, *typedArgVertex).Type != nil) || (typeis(x, *typedOutputVertex) && as(x, *typedOutputVertex) != nil && as(x, *typedOutputVertex).Type != nil) || (typeis(x, *funcVertex) && as(x, *funcVertex) != nil && funcOK(as(x, *funcVertex).Func)) || (typeis(x, *rootVertex) && as(x, *rootVertex) != nil)
-//@ pred gOK(g *graph.Graph) bool = forall(k, any, imp(has(g.hash, k), repOK(g.hash[k]) && hc(g.hash[k]) == k))
+//@ ghost gOK(g *graph.Graph) bool = forall(k, any, imp(has(g.hash, k), repOK(g.hash[k]) && hc(g.hash[k]) == k))
 
 //@ func (*funcVertex).Hashcode
 //@   requires v != nil && v.Func != nil && valid(v.Func.fn)
@@ -706,6 +712,8 @@ package argmapper
 //@   modifies nothing
 //@ axiom hcm-func: forall(v, *funcVertex, hcm(box(v)) == box(rtypeof(v.Func.fn)))
 //@ immutable funcVertex.Func, Func.fn, Func.input, Func.output
+// the label of a declared value is fixed when the Value is created (the library never reassigns it)
+//@ immutable Value.Name, Value.Type, Value.Subtype, valueInternal.index
 
 //@ ghostvar reqs set[any]
 //@ func (*Func).graph
@@ -759,31 +767,37 @@ package argmapper
 
 // ---------------------------------------------------------------- args.go: argBuilder.graph (C01 C03 C13)
 // What the call machinery relies on in a builder: every stored value is a
-// valid reflect.Value, typed entries are keyed by a non-nil type, converters are well-formed.
-//@ pred bOK(b *argBuilder) bool = wfB(b)
+// valid reflect.Value, typed entries are keyed by a non-nil type, converters
+// are well-formed, generators are non-nil.
+//@ pred bVals(b *argBuilder) bool = wfB(b)
 //@     && forall(k, string, imp(has(b.named, k), valid(b.named[k])))
 //@     && forall(k, string, s, string, imp(has(b.namedSub, k) && has(b.namedSub[k], s), valid(b.namedSub[k][s])))
 //@     && forall(t, reflect.Type, imp(has(b.typed, t), valid(b.typed[t]) && t != nil))
 //@     && forall(t, reflect.Type, s, string, imp(has(b.typedSub, t) && has(b.typedSub[t], s), valid(b.typedSub[t][s]) && t != nil))
-//@     && forall(i, int, imp(0 <= i && i < len(b.convs), funcOK(b.convs[i])))
-// a converter generator is user code: it returns nil or a Func built by this
-// library, and does not touch the graph under construction
-//@ assume-note T6: a ConverterGenFunc returns nil or a well-formed Func (one built by NewFunc/BuildFunc), reports failure only through its error result, and has no effect on the call graph, the builder or the ghost execution state
+//@ pred bConvs(b *argBuilder) bool = forall(i, int, imp(0 <= i && i < len(b.convs), funcOK(b.convs[i]))) && forall(i, int, imp(0 <= i && i < len(b.convGens), b.convGens[i] != nil))
+//@ ghost bOK(b *argBuilder) bool = bVals(b) && bConvs(b)
+// A converter generator is user code. It returns nil or a Func built by this
+// library; it is modelled as choosing among Funcs that already exist (nothing
+// is allocated or written by the call as far as this library can observe).
+//@ assume-note T6: a ConverterGenFunc returns nil or a well-formed Func (one built by NewFunc/BuildFunc), reports failure only through its error result, and has no effect on the call graph, the builder or the ghost execution state; the Func it returns is modelled as an already existing object (an over-approximation of a fresh one)
 //@ extern type:argmapper.ConverterGenFunc :: (v Value) (result0 *Func, result1 error)
 //@   ensures  result0 == nil || funcOK(result0)
-//@   assigns  Func, ValueSet, Value, valueInternal, []*Value, map[string]*Value, map[reflect.Type]*Value, map[string]string, []string, []interface{}, reflect.StructField, []reflect.StructField, []Arg, rvstore, rvfresh
+//@   assigns  nothing
 //@   modifies nothing
 
 //@ func newValueFromVertex
+//@   requires imp(typeis(v, *valueVertex), as(v, *valueVertex) != nil) && imp(typeis(v, *typedOutputVertex), as(v, *typedOutputVertex) != nil)
 //@   ensures  result == nil || fresh(result)
 //@   ensures  imp(typeis(v, *valueVertex) && as(v, *valueVertex) != nil, result != nil && result.Name == as(v, *valueVertex).Name && result.Type == as(v, *valueVertex).Type && result.Subtype == as(v, *valueVertex).Subtype && result.Value == as(v, *valueVertex).Value)
 //@   ensures  imp(typeis(v, *typedOutputVertex) && as(v, *typedOutputVertex) != nil, result != nil && result.Name == "" && result.Type == as(v, *typedOutputVertex).Type && result.Subtype == as(v, *typedOutputVertex).Subtype && result.Value == as(v, *typedOutputVertex).Value)
 //@   ensures  imp(!typeis(v, *valueVertex) && !typeis(v, *typedOutputVertex), result == nil)
-//@   requires imp(typeis(v, *valueVertex), as(v, *valueVertex) != nil) && imp(typeis(v, *typedOutputVertex), as(v, *typedOutputVertex) != nil)
 //@   assigns  Value, valueInternal
 //@   modifies nothing
 
-//@ ghost rooted(g *graph.Graph, vs []graph.Vertex, root graph.Vertex) bool = forall(i, int, imp(0 <= i && i < len(vs), edge(g, hc(vs[i]), hc(root)) && has(g.hash, hc(vs[i])) && (hkind(hc(vs[i])) == 1 || hkind(hc(vs[i])) == 3)))
+// ins: hash codes of the input vertices attached to the root so far
+//@ ghostvar ins set[any]
+//@ ghost rootedSet(g *graph.Graph, root graph.Vertex) bool = forall(h, any, imp(in(h, ins), edge(g, h, hc(root)) && has(g.hash, h) && (hkind(h) == 1 || hkind(h) == 3)))
+//@ ghost listed(vs []graph.Vertex) bool = forall(i, int, imp(0 <= i && i < len(vs), in(hc(vs[i]), ins)))
 //@ func (*argBuilder).graph
 //@   requires g != nil && wf0(g) && gOK(g) && bOK(b) && has(g.hash, hc(root)) && hkind(hc(root)) == 5
 //@   ensures  [graph-kept-well-formed] wf(g) && gOK(g) && sameRefs(g)
@@ -791,19 +805,29 @@ package argmapper
 //@   ensures  [vertices-kept] forall(k, any, imp(old(has(g.hash, k)), has(g.hash, k)))
 //@   ensures  [rule-instances-only] imp(old(ruleInv(g)), ruleInv(g))
 //@   ensures  [edges-kept] forall(a, any, b, any, imp(old(edge(g, a, b)), edge(g, a, b)))
-//@   ensures  [inputs-attached-to-the-root] imp(result2 == nil, rooted(g, result0, root))
+//@   ensures  [inputs-attached-to-the-root] imp(result2 == nil, rootedSet(g, root) && listed(result0))
 //@   ensures  [supplied-converters-listed] imp(result2 == nil, len(result1) >= len(b.convs) && forall(i, int, imp(0 <= i && i < len(b.convs), result1[i] == b.convs[i])))
 //@   ensures  [generator-error-returned] imp(result2 != nil, result0 == nil && result1 == nil)
 //@   ensures  [no-user-code-but-generators] planning == old(planning) && failed == old(failed) && nexec == old(nexec)
-//@   assigns  graph.Graph, Outer, Inner, HashM, valueVertex, typedArgVertex, typedOutputVertex, funcVertex, []interface{}, reqs, []graph.Vertex, []*Func, Func, ValueSet, Value, valueInternal, []*Value, map[string]*Value, map[reflect.Type]*Value, map[string]string, []string, reflect.StructField, []reflect.StructField, []Arg, rvstore, rvfresh
+//@   assigns  graph.Graph, Outer, Inner, HashM, valueVertex, typedArgVertex, typedOutputVertex, funcVertex, []interface{}, reqs, ins, []graph.Vertex, []*Func, Value, valueInternal
 //@   modifies g, g.adjacencyOut, g.adjacencyIn, g.hash, forall(m, Inner, infoot(g, m))
+//@   before "var result []graph.Vertex" set ins = emptyset(any)
+//@   after "result = append(result, input)" set ins = add(ins, hc(input))
+//@   after "result = append(result, input)" set ins = add(ins, hc(input))
+//@   after "result = append(result, input)" set ins = add(ins, hc(input))
+//@   after "result = append(result, input)" set ins = add(ins, hc(input))
 //@   loop * invariant wf(g) && sameRefs(g)
 //@   loop * invariant gOK(g)
 //@   loop * invariant footGrows(g)
-//@   loop * invariant bOK(b) && has(g.hash, hc(root)) && hkind(hc(root)) == 5
+//@   loop * invariant bVals(b) && bConvs(b) && has(g.hash, hc(root)) && hkind(hc(root)) == 5
 //@   loop * invariant forall(k, any, imp(old(has(g.hash, k)), has(g.hash, k)))
 //@   loop * invariant imp(old(ruleInv(g)), ruleInv(g))
 //@   loop * invariant forall(a, any, b, any, imp(old(edge(g, a, b)), edge(g, a, b)))
-//@   loop * invariant rooted(g, result, root) && (result == nil || fresh(result)) && sliceskept([]graph.Vertex)
-//@   loop 8 invariant len(convs) >= len(b.convs) && forall(i, int, imp(0 <= i && i < len(b.convs), convs[i] == b.convs[i])) && fresh(convs) && sliceskept([]*Func)
-//@   loop 9 invariant len(convs) >= len(b.convs) && forall(i, int, imp(0 <= i && i < len(b.convs), convs[i] == b.convs[i])) && fresh(convs) && sliceskept([]*Func)
+//@   loop * invariant rootedSet(g, root)
+//@   loop * invariant listed(result)
+//@   loop * invariant (result == nil || fresh(result)) && sliceskept([]graph.Vertex) && sliceskept([]*Func) && sliceskept([]ConverterGenFunc)
+//@   after "copy(convs, b.convs)" assert [supplied-converters-still-well-formed] bConvs(b)
+//@   loop 8 invariant len(convs) >= len(b.convs) && forall(i, int, imp(0 <= i && i < len(b.convs), convs[i] == b.convs[i])) && fresh(convs)
+//@   loop 8 invariant forall(i, int, imp(0 <= i && i < len(rslice8), has(g.hash, hc(rslice8[i])) && g.hash[hc(rslice8[i])] == rslice8[i]))
+//@   loop 9 invariant len(convs) >= len(b.convs) && forall(i, int, imp(0 <= i && i < len(b.convs), convs[i] == b.convs[i])) && fresh(convs)
+//@   loop 9 invariant forall(i, int, imp(0 <= i && i < len(rslice8), has(g.hash, hc(rslice8[i])) && g.hash[hc(rslice8[i])] == rslice8[i]))
